@@ -432,11 +432,11 @@ class Trimesh(Geometry3D):
             return
         # check if any values are larger than tol.merge
         # don't set the normals if they are all zero
-        ptp = np.ptp(values)
-        if not np.isfinite(ptp):
+        largest = np.abs(values).max()
+        if not np.isfinite(largest):
             log.debug("face_normals contain NaN, ignoring!")
             return
-        if ptp < tol.merge:
+        if largest < tol.merge:
             log.debug("face_normals all zero, ignoring!")
             return
 
@@ -2775,6 +2775,10 @@ class Trimesh(Geometry3D):
         with self._cache:
             face_normals = self._cache["face_normals"]
             vertex_normals = self._cache["vertex_normals"]
+            # the old normals are wrong from here on even
+            # if the setters below refuse the negated ones
+            self._cache.delete("face_normals")
+            self._cache.delete("vertex_normals")
             # fliplr makes array non-contiguous so cache checks slow
             self.faces = np.ascontiguousarray(np.fliplr(self.faces))
             # reverse the faces first: the setter only accepts
